@@ -158,17 +158,19 @@ Section MERKLE.
     Variable m : nat.
     Variable lh : lhT.
     (* Theorem A one level below *)
-    Hypothesis IHm : forall (lh' : lhT) lhb t, (forall s v, lh' s v = lhb (bits_of_nibbles s) v) ->
+    Hypothesis IHm : forall (lh' : lhT) lhb t, (forall s v, kvalid s -> lh' s v = lhb (bits_of_nibbles s) v) ->
+      (forall k d, In (k, d) (leaves A m t) -> kvalid k) ->
       good H A m lh' t -> node_hash H A lh' t = smt H (4 * m) lhb (ebits (leaves A m t)).
 
     Lemma merkle_level : forall l start lhp cs, (l <= 4)%nat -> aligned_b l start = true ->
       ssorted A cs -> Forall (child_ok H A m lh) cs ->
       (forall c, In c cs -> in_range start (2 ^ N.of_nat l) (c_nib c) = true ->
-                 forall s v, lhp (lowbits l (c_nib c) ++ bits_of_nibbles s) v = lh (c_nib c :: s) v) ->
+                 forall s v, kvalid s -> lhp (lowbits l (c_nib c) ++ bits_of_nibbles s) v = lh (c_nib c :: s) v) ->
+      (forall c, In c cs -> forall k d, In (k, d) (leaves A m (c_sub c)) -> kvalid k) ->
       merkle_hash H A l start cs =
       smt H (4 * m + l) lhp (SR m l (filter (fun c => in_range start (2 ^ N.of_nat l) (c_nib c)) cs)).
     Proof.
-      induction l as [|l IHl]; intros start lhp cs Hl Ha Hs Hf Hlh.
+      induction l as [|l IHl]; intros start lhp cs Hl Ha Hs Hf Hlh Hval.
       - (* width 1 *)
         cbn [merkle_hash].
         set (rc := filter (fun c => in_range start (2 ^ N.of_nat 0) (c_nib c)) cs).
@@ -183,10 +185,10 @@ Section MERKLE.
         rewrite Forall_forall in Hf. destruct (Hf c Hc) as (C1 & C2 & C3 & C4).
         unfold SR. cbn [flat_map lowbits app]. rewrite app_nil_r.
         rewrite C3. rewrite Nat.add_0_r.
-        rewrite (IHm (lh_down lh (c_nib c)) lhp (c_sub c)); [|intros s v|exact C2].
+        rewrite (IHm (lh_down lh (c_nib c)) lhp (c_sub c)); [|intros s v Vs|apply (Hval c Hc)|exact C2].
         + unfold EL. f_equal. symmetry. erewrite map_ext; [apply map_id|].
           intros [k v]. reflexivity.
-        + unfold lh_down. rewrite <- Hlh; [reflexivity|exact Hc|]. rewrite Enib.
+        + unfold lh_down. rewrite <- Hlh; [reflexivity|exact Hc| |exact Vs]. rewrite Enib.
           unfold in_range. cbn. rewrite N.leb_refl. cbn. apply N.ltb_lt. lia.
       - (* width 2^(l+1) *)
         cbn [merkle_hash].
@@ -208,7 +210,8 @@ Section MERKLE.
           unfold SR, EL. cbn [flat_map]. rewrite Esub.
           assert (EL1 : leaves A m (Leaf s vh p a) = [(s, (vh, p, a))]) by (destruct m; reflexivity).
           rewrite EL1. cbn [ebits map fst snd app vh_of]. rewrite smt_single.
-          rewrite C3. cbn [node_hash]. unfold lh_down. symmetry. apply Hlh; assumption.
+          rewrite C3. cbn [node_hash]. unfold lh_down. symmetry. apply Hlh; try assumption.
+          apply (Hval c Hc s (vh, p, a)). rewrite Esub, EL1. left. reflexivity.
         + (* two leaves or more below the range: one more hashing level *)
           assert (L2 : (2 <= length (SR m (S l) (c :: rest)))%nat).
           { destruct rest as [|d rest']; [|exact Hlen]. apply Hlen. exact Esingle. }
@@ -219,17 +222,17 @@ Section MERKLE.
           rewrite (sel_SR m l start false (c :: rest) Hl4 Ha) by (intros d Hd; apply Hrc; exact Hd).
           rewrite (sel_SR m l start true (c :: rest) Hl4 Ha) by (intros d Hd; apply Hrc; exact Hd).
           f_equal. f_equal.
-          * apply IHl; try assumption; [lia|].
-            intros d Hd Hr s v. destruct (Hrc d Hd) as (Hd1 & Hd2 & Hd3).
+          * apply IHl; try assumption; [lia| |intros d Hd; apply Hval; apply (Hrc d Hd)].
+            intros d Hd Hr s v Vs. destruct (Hrc d Hd) as (Hd1 & Hd2 & Hd3).
             destruct (half_facts l start (c_nib d) Hl4 (aligned_lt16 _ _ Ha) Hd2 Ha) as (_ & _ & F).
             destruct (F Hd3) as [F1 _]. rewrite Hr in F1.
-            rewrite <- (Hlh d Hd1 Hd3 s v). cbn [lowbits app].
+            rewrite <- (Hlh d Hd1 Hd3 s v Vs). cbn [lowbits app].
             destruct (N.testbit (c_nib d) (N.of_nat l)); [discriminate|reflexivity].
-          * apply IHl; try assumption; [lia|].
-            intros d Hd Hr s v. destruct (Hrc d Hd) as (Hd1 & Hd2 & Hd3).
+          * apply IHl; try assumption; [lia| |intros d Hd; apply Hval; apply (Hrc d Hd)].
+            intros d Hd Hr s v Vs. destruct (Hrc d Hd) as (Hd1 & Hd2 & Hd3).
             destruct (half_facts l start (c_nib d) Hl4 (aligned_lt16 _ _ Ha) Hd2 Ha) as (_ & _ & F).
             destruct (F Hd3) as [_ F2]. rewrite Hr in F2.
-            rewrite <- (Hlh d Hd1 Hd3 s v). cbn [lowbits app].
+            rewrite <- (Hlh d Hd1 Hd3 s v Vs). cbn [lowbits app].
             destruct (N.testbit (c_nib d) (N.of_nat l)); [reflexivity|discriminate].
     Qed.
   End LEVEL.
@@ -243,15 +246,20 @@ Section MERKLE.
 
   (* Theorem A *)
   Theorem hash_is_smt : forall n (lh : lhT) lhb t,
-    (forall s v, lh s v = lhb (bits_of_nibbles s) v) ->
+    (forall s v, kvalid s -> lh s v = lhb (bits_of_nibbles s) v) ->
+    (forall k d, In (k, d) (leaves A n t) -> kvalid k) ->
     good H A n lh t ->
     node_hash H A lh t = smt H (4 * n) lhb (ebits (leaves A n t)).
   Proof.
-    induction n as [|n IH]; intros lh lhb t Hlh G; destruct t as [|s vh p a|cs]; cbn [good] in G;
+    induction n as [|n IH]; intros lh lhb t Hlh Hv G; destruct t as [|s vh p a|cs]; cbn [good] in G;
       try contradiction.
-    - cbn. apply Hlh.
+    - cbn. apply Hlh. apply (Hv s (vh, p, a)). left. reflexivity.
     - cbn [node_hash leaves ebits map fst snd vh_of]. rewrite smt_single. apply Hlh.
+      apply (Hv s (vh, p, a)). left. reflexivity.
     - destruct G as (G1 & G2 & G3). cbn [node_hash].
+      assert (Hval : forall c, In c cs -> forall k d, In (k, d) (leaves A n (c_sub c)) -> kvalid (c_nib c :: k)).
+      { intros c Hc k d Hin. apply (Hv (c_nib c :: k) d). cbn [leaves]. apply in_flat_map. exists c. split; [exact Hc|].
+        apply in_map_iff. exists (k, d). split; [reflexivity|exact Hin]. }
       rewrite (merkle_level n lh IH 4 0 lhb cs); try assumption; try lia; try reflexivity.
       + replace (4 * S n)%nat with (4 * n + 4)%nat by lia. f_equal.
         rewrite filter_id.
@@ -260,7 +268,9 @@ Section MERKLE.
             split; [apply N.leb_le; lia|apply N.ltb_lt; lia]. }
         cbn [leaves]. unfold ebits, SR, EL, ebits. rewrite map_flat_map. apply flat_map_ext.
         intro c. rewrite !map_map. apply map_ext. intros [k d]. cbn [fst snd]. rewrite bits_cons. reflexivity.
-      + intros c Hc _ s v. rewrite Hlh. rewrite bits_cons. reflexivity.
+      + intros c Hc _ s v Vs. rewrite Hlh; [rewrite bits_cons; reflexivity|].
+        constructor; [|exact Vs]. rewrite Forall_forall in G2. apply (G2 c Hc).
+      + intros c Hc k d Hin. apply (kvalid_head (c_nib c)). eapply Hval; eassumption.
   Qed.
 
   Corollary null_hash_is_smt : forall n (lh : lhT) lhb,
